@@ -10,7 +10,7 @@ int sq_thrown;
 #define SQ_ASSERT(e)  __CPROVER_assert((e), "assert() of the real code")
 #define SQ_AXIOM(e)   __CPROVER_assert((e), "SQUIDS_COMPILER_ASSUME axiom must be true")
 #define SQUIDS_POINTER_IS_ALIGNED(p,a) do{}while(0)
-#define SQ_FILL(b,e,v) do{ for(R* p_=(b); p_!=(e); ++p_) *p_=(v); }while(0)
+#define sq_filln(b,n,v) do{ for(unsigned k_=0;k_<(n);k_++) (b)[k_]=(v); }while(0)     /* std::fill(p,p+n,v) */
 /* declaration forms of a local result vector: the sized constructor zero-fills; make_aligned(d,zero_fill) zero-fills iff asked */
 #define SQ_NEW_SIZED(v,d)      do{ for(unsigned k_=0;k_<(d)*(d);k_++) (v)[k_]=0; }while(0)
 #define SQ_NEW_ALIGNED(v,d,z)  do{ if(z) for(unsigned k_=0;k_<(d)*(d);k_++) (v)[k_]=0; }while(0)
@@ -30,6 +30,7 @@ static void ctor_matrix(unsigned dim, unsigned size, R* components, const gsl_ma
 //@BODY file=src/SUNalg.cpp sig=/SU_vector::SU_vector\s*\(\s*const\s+gsl_matrix_complex\s*\*\s*m\s*\)/ rules=common
 //@SUB /#include\s+<SQuIDS\/SU_inc\/([A-Za-z0-9_]+\.txt)>/#include "SU_inc_l2\/\1"/ min=1
 //@SUB /double\s+m_real\[dim\]\[dim\]\s*;\s*double\s+m_imag\[dim\]\[dim\]\s*;/R m_real[D][D]; R m_imag[D][D];/ min=1
+//@SUB /components\s*=\s*new\s+double\s*\[\s*size\s*\]\s*;/\/* storage: provided by the harness (allocation is Layer 1) *\// min=0
 }
 /* ComponentsFromMatrices (factories): sq_array_2D accessors are `data[d*i+j]` (bodies of the two operator[]) */
 struct sq_array_2D { unsigned d; R* data; };
